@@ -93,6 +93,7 @@ func runC01Fork(r *simrt.Run) {
 	w := nomsim.NewWorld(r, nomsim.MockGenesis(mode))
 	w.EnforceReceiverRule(0)
 	wl := nomsim.NewWorkload(w, mode)
+	wl.Huge = t.Choose(4) == 0
 	wl.MaxOps = 2 + t.Choose(5)
 	f := nomsim.NewFork(w, wl, t.Choose(6), t.Bool(), t.Bool())
 	check := func(stage string) {
@@ -174,6 +175,7 @@ func runC01(r *simrt.Run) {
 	}
 	p := w.AddNode("P", nomsim.MockPillars(), false)
 	wl := nomsim.NewWorkload(w, mode)
+	wl.Huge = t.Choose(4) == 0
 	wl.MaxOps = 2 + t.Choose(6)
 	slots := 25 + t.Choose(60)
 	if r.Tier == "thorough" {
